@@ -161,7 +161,11 @@ class Gen:
             return {'t': 'str', 'v': self.var(rng.choice(['x', 'y', 'z']))}, ('Q' if self.mode == 'rat' else 'F')
         if positive:
             return self.leaf_pos()
-        return self.expr(depth - 1, q_ok)
+        self.no_empty += 1        # a None-valued ARGUMENT of a class instance: the order of the resulting exceptions is not modelled
+        try:
+            return self.expr(depth - 1, q_ok)
+        finally:
+            self.no_empty -= 1
 
     def leaf_pos(self):
         v = float('%.6g' % self.rng.uniform(0.2, 4)) if self.mode == 'float' else rat_json(self.q())
@@ -255,6 +259,10 @@ class Gen:
             return self.new('MassActionEq', [a], a[1])
         if c == 'MassAction':
             a = self.arg(depth, q_ok=q_ok)
+            if rat and a[0]['t'] == 'num' and isinstance(a[0]['v'], list):
+                # a bare Fraction inside a MassAction meets _implicit_conversion as soon as the wrapper is compared
+                # (`other == other*0` in Expr.__sub__): keep the bare rate constant an int
+                a = ({'t': 'num', 'v': rng.choice([1, 2, 3, 5, -2])}, 'I')
             ty = Q if (self.has_rxn and self.rxn) else a[1]
             if a[0]['t'] != 'str' and rng.random() < 0.4:
                 return {'t': 'new', 'k': {'c': 'MassAction'}, 'args': {'s': a[0]}, 'uk': None}, ty
@@ -283,9 +291,9 @@ class Gen:
             if rng.random() < 0.6 or not q_ok:
                 args.append(self.arg(0, positive=True, lo=0.1, hi=10))
             p = self.new('Eyring', args, 'F')
-            if rng.random() < 0.04 and q_ok:
+            if rng.random() < 0.08 and q_ok:
                 p[0]['args'] = None                  # Eyring.fk(...): defaults through Python's negative index
-                p[0]['uk'] = [self.var('k1')]
+                p[0]['uk'] = [self.var('k1')] if rng.random() < 0.4 else [self.var('k1'), self.var('k2')]
             if c == 'MAEyr':
                 return {'t': 'new', 'k': {'c': 'MassAction'}, 'args': {'s': p[0]}, 'uk': None}, 'F'
             return p
@@ -300,7 +308,7 @@ class Gen:
             return self.new('EyringHS', args, 'F')
         if c == 'SinTemp':
             self.var('time')
-            return self.new('SinTemp', [self.arg(depth) for _ in range(4)], 'F')
+            return self.new('SinTemp', [self.arg(0) for _ in range(4)], 'F')   # raw numbers: sin of a huge argument is ill-conditioned
         if c == 'GibbsEqConst':
             self.var('temperature')
             dH = {'t': 'num', 'v': float('%.6g' % rng.uniform(-8000, 8000))}
@@ -326,7 +334,7 @@ class Gen:
             p['args'] = {'l': l[:-1]}                 # wrong number of arguments (or a default takes over)
         elif r < 0.05:
             p['args'] = {'l': l + [{'t': 'num', 'v': 1 if self.mode == 'rat' else 1.0}]}
-        elif r < 0.08 and uk:
+        elif r < 0.08 and uk and cls not in ('Eyring', 'EyringHS'):
             p['args'] = None                           # `fk` construction: every argument from the variables
             for k in uk:
                 if rng.random() < 0.9:
@@ -445,6 +453,12 @@ def map_nums(p, f):
     if t == 'eyrp':
         return {'t': 'eyrp', 'dH': f(p['dH']), 'dS': f(p['dS']), 'uk': p['uk']}
     raise KeyError(t)
+
+
+def _has_qty(prog):
+    """the program contains an Eyring / EyringHS instance whose conc0 is the class default (1 * molar, a Quantity)"""
+    return any((q['t'] == 'new' and q['k']['c'] in ('Eyring', 'EyringHS') and (q['args'] is None or len(q['args'].get('l', [0, 0, 0])) < 3))
+               or q['t'] == 'eyrp' for q in walk(prog))
 
 
 class Real:
@@ -597,6 +611,7 @@ class C16(Property):
                    '_implicit_conversion, plain UnaryWrapper instances and Expr.arg with a str index are outside the model',
                    'Eyring/EyringHS default conc0 = 1*molar is modelled by its magnitude 1',
                    'Piecewise: the model covers backends without `Piecewise` (math, numpy); sympy is compared inside the bounds only',
+                   'a complex value (negative base, non-integer exponent) ends the evaluation in the model; Python continues with complex arithmetic, so a later exception of the real code is accepted there',
                    'unit-carrying evaluation is checked by the oracle only (quantities is third-party)',
                    'translator pyfn2lean + the two AST rewrites of tools/extract/rateconst.py (plain-number path of try/except AttributeError)')
     anchors = (('chempy/util/_expr.py', 'Expr.__init__'), ('chempy/util/_expr.py', 'Expr.arg'), ('chempy/util/_expr.py', 'Expr.all_args'),
@@ -740,6 +755,15 @@ class C16(Property):
             return False
         if mc['num'] == 'rat':
             return io == mo
+        if mo.endswith(' = !py:complex') and ' = ' in io:
+            # a complex number is a value in Python (evaluation goes on: it may raise later, or the value may sit in an
+            # unselected Piecewise branch); the real-number model stops there: only the structures are compared
+            io, mo = io.split(' = ')[0], mo.split(' = ')[0]
+        if mo.endswith(' = !py:ZeroDivisionError') and ' = #' in io and _has_qty(mc['prog']):
+            # Eyring's default conc0 is a Quantity (a numpy array): dividing it by zero gives inf/nan instead of raising
+            v = b2f(io.split(' = #')[1])
+            if math.isinf(v) or math.isnan(v):
+                io, mo = io.split(' = ')[0], mo.split(' = ')[0]
         ti, ni = self._split_nums(io)
         tm, nm = self._split_nums(mo)
         return ti == tm and len(ni) == len(nm) and all(close(x, y, self.float_tol) for x, y in zip(ni, nm))
@@ -762,6 +786,8 @@ class C16(Property):
             if p['o'] in ('sub', 'mul', 'div'):
                 for side in ('a', 'b'):     # UnaryWrapper: "can only be used when unique_keys are None" (documented ValueError)
                     q = p[side]
+                    while q['t'] == 'op' and q['o'] == 'neg' and q['a']['t'] == 'op' and q['a']['o'] == 'neg':
+                        q = q['a']['a']      # -(-x) is x
                     if q['t'] == 'new' and q['k']['c'] == 'MassAction' and (q['uk'] is not None or q['args'] is None):
                         raise Skip('MassAction with unique keys in * / -')
                     if (side == 'b' and p['o'] == 'sub' and q['t'] == 'new' and q['k']['c'] == 'MassAction' and q['args'] and 'l' in q['args']
@@ -946,6 +972,8 @@ class C16(Property):
 
     # ---- the property on the real code ------------------------------------------------------------------------
     def oracle(self, c):
+        import warnings
+        warnings.filterwarnings('ignore', category=RuntimeWarning)
         k = c.get('kind')
         if k == 'tree':
             return self._oracle_tree(c)
@@ -975,8 +1003,7 @@ class C16(Property):
             return None                       # a float crept in (int / int): not an exact case
         has_log10 = any(q['t'] == 'new' and q['k']['c'] == 'Log10' for q in walk(c['prog']))
         has_pw = any(q['t'] == 'new' and q['k']['c'] == 'Piecewise' for q in walk(c['prog']))
-        has_qty = any((q['t'] == 'new' and q['k']['c'] in ('Eyring', 'EyringHS') and (q['args'] is None or len(q['args'].get('l', [0, 0, 0])) < 3))
-                      or q['t'] == 'eyrp' for q in walk(c['prog']))
+        has_qty = _has_qty(c['prog'])
         try:
             obj = real.build(c['prog'])
         except Exception as e:
@@ -1200,6 +1227,20 @@ class C16(Property):
             return q['k']['c'] == 'MassAction'
         if q['t'] == 'op' and q['o'] in ('mul', 'div'):
             return C16._is_ma(q['a']) or C16._is_ma(q['b'])
+        if q['t'] == 'op' and q['o'] == 'neg' and q['a']['t'] == 'op' and q['a']['o'] == 'neg':
+            return C16._is_ma(q['a']['a'])          # -(-x) is x
+        if q['t'] == 'op' and q['o'] in ('add', 'sub'):  # x + 0, 0 + x, x - 0 are x
+            def zero(z):
+                if z['t'] == 'num':
+                    return z['v'] == 0
+                if z['t'] == 'new' and z['k']['c'] == 'Constant' and z['args']:
+                    kids = z['args']['l'] if 'l' in z['args'] else [z['args']['s']]
+                    return len(kids) == 1 and kids[0]['t'] == 'num' and kids[0]['v'] == 0
+                return False
+            if zero(q['b']) and C16._is_ma(q['a']):
+                return True
+            if q['o'] == 'add' and zero(q['a']) and q['a']['t'] == 'num' and C16._is_ma(q['b']):
+                return True
         return False
 
     def _has_rdiv(self, c):
